@@ -17,6 +17,8 @@ caller's arguments, everything else must not survive -- which is what this oracl
 from __future__ import annotations
 import os
 import pickle
+import select
+import signal
 import struct
 
 from . import engine
@@ -25,6 +27,13 @@ from .engine import E, P, D
 
 class PristineError(engine.HarnessError):
     pass
+
+
+class PristineIncomplete(Exception):
+    """A pristine child hung or died (a defect under test can do that); nothing is claimed for the run."""
+
+
+CHILD_DEADLINE_S = 150.0
 
 
 def _send(fd, obj):
@@ -72,12 +81,20 @@ def _in_child(fn, *args):
             os._exit(rc)
     os.close(w)
     try:
-        res = _recv(r)
+        ready, _, _ = select.select([r], [], [], CHILD_DEADLINE_S)
+        if not ready:
+            try:
+                os.kill(pid, signal.SIGKILL)
+            except OSError:
+                pass
+            res = ("incomplete", "child exceeded its deadline")
+        else:
+            res = _recv(r)
     finally:
         os.close(r)
         os.waitpid(pid, 0)
     if res is None:
-        return ("error", "child died without an answer")
+        return ("incomplete", "child died without an answer")
     return res
 
 
@@ -194,6 +211,8 @@ class Zygote:
         ans = _recv(self.res_r)
         if ans is None:
             raise PristineError("zygote died")
+        if ans[0] == "incomplete":
+            raise PristineIncomplete(ans[1])
         if ans[0] != "ok":
             raise PristineError(f"pristine execution failed: {ans[1]}")
         return ans[1]
@@ -245,7 +264,12 @@ class PristineRun:
 
 def execute(scn, cf=None):
     """-> (PristineRun, [Violation])"""
-    result = zygote().run(scn, cf)
+    try:
+        result = zygote().run(scn, cf)
+    except PristineIncomplete:
+        run = PristineRun(scn, {"live": {"log": [], "records": []}, "refs": {}, "gave_up": False})
+        run.stats["pristine_incomplete"] = 1
+        return run, []
     run = PristineRun(scn, result)
     steps = {st["id"]: st for st in scn["steps"]}
     viols = []
